@@ -386,6 +386,15 @@ func checkC02(c *Ctx, r *Report) {
 					}
 					k, ok := x.Call.Args[1].(*ssa.Const)
 					if !ok || k.Value == nil || k.Value.Kind().String() != "String" {
+						// table-driven: key and value come from the row a loop
+						// over a literal {key, values} table is visiting
+						for _, row := range tableKeyValueRows(x.Call.Args[1], x.Call.Args[2]) {
+							if got[row.key] == nil {
+								got[row.key] = provSet{}
+							}
+							got[row.key].add(pa.Of(row.val))
+							at[row.key] = in
+						}
 						return
 					}
 					key := constString(k)
@@ -1064,4 +1073,56 @@ func checkVersionMust(c *Ctx, r *Report) {
 		}
 	}
 	r.Floor("F6", n, 8)
+}
+
+type kvRow struct {
+	key string
+	val ssa.Value
+}
+
+// tableKeyValueRows: key and val are read from the element a loop visits in a
+// literal table (val possibly as an element of a list-valued field); returns
+// one (constant key, stored value) pair per row, nil when the shape differs.
+func tableKeyValueRows(key, val ssa.Value) []kvRow {
+	ia, kfield, ok := loopElemField(key)
+	if !ok {
+		return nil
+	}
+	vfield := ""
+	if ib, f, ok := loopElemField(val); ok && ib == ia {
+		vfield = f
+	} else if ld, ok := val.(*ssa.UnOp); ok && ld.Op == token.MUL {
+		// an element of a list-valued field: for _, v := range row.values
+		if inner, ok := ld.X.(*ssa.IndexAddr); ok {
+			base := inner.X
+			if sl, ok := base.(*ssa.Slice); ok {
+				base = sl.X
+			}
+			if ib, f, ok := loopElemField(base); ok && ib == ia {
+				vfield = f
+			}
+		}
+	}
+	if vfield == "" {
+		return nil
+	}
+	var arr *ssa.Alloc
+	switch x := ia.X.(type) {
+	case *ssa.Slice:
+		arr, _ = x.X.(*ssa.Alloc)
+	case *ssa.Alloc:
+		arr = x
+	}
+	if arr == nil {
+		return nil
+	}
+	var out []kvRow
+	for _, row := range tableRows(arr, ia) {
+		k, ok := row[kfield].(*ssa.Const)
+		if !ok || row[vfield] == nil || constOrEmpty(k) == "" {
+			return nil
+		}
+		out = append(out, kvRow{constOrEmpty(k), row[vfield]})
+	}
+	return out
 }
